@@ -122,7 +122,7 @@ Definition allowed (o : options) (ftp outf : list N) (op : sysop) : Prop :=
   | OChmod p _ => p = outf
   | OUnlink p => p = outf \/ p = ftp
   | OSymlink _ p => p = outf
-  | OMkdir d => is_ancestor d outf \/ is_ancestor d (reject_path o outf)
+  | OMkdir d => is_ancestor d outf \/ is_ancestor d (reject_path o outf) \/ is_ancestor d (backup_name o outf)
   | ORmdir d => is_ancestor d outf \/ is_ancestor d ftp
   end.
 
@@ -131,8 +131,11 @@ Variable o : options.
 Variables ftp outf : list N.
 Notation OKP := (allowed o ftp outf).
 
+Lemma TP_ensure_bak : TP OKP (ensure_parent_directories (backup_name o outf)).
+Proof. eapply TP_weaken; [apply TP_ensure|]. intros op (d & -> & A). cbn [allowed]. auto. Qed.
+
 Lemma TP_backup st : TP OKP (make_backup_for o st outf).
-Proof. unfold make_backup_for. tp; cbn [allowed]; auto. Qed.
+Proof. unfold make_backup_for, backup_core. pose proof TP_ensure_bak. tp; cbn [allowed]; auto. Qed.
 
 Lemma TP_write_now st data nn bk cf pa : TP OKP (write_now o st (mkDef data outf nn bk cf pa)).
 Proof. unfold write_now. cbn [d_backup d_dest d_chmod_first d_data d_perm_after]. pose proof TP_backup. tp; cbn [allowed]; auto. Qed.
